@@ -157,6 +157,15 @@ func baseCfg() M {
 	return M{"auth": "none", "tls": "nil", "params": M{}, "version": "", "mw": []any{}, "term": "none", "limit": 65536}
 }
 
+// deadCtx: now and then the session's context has ended before the first command (a session time-out): the
+// connection is served all the same, rows and COPY fail.
+func (g *gen) deadCtx(cfg M) M {
+	if g.chance(0.1) {
+		cfg["ctx"] = "dead"
+	}
+	return cfg
+}
+
 func startup(user string) M {
 	return M{"k": "send", "m": M{"t": "Startup", "term": true, "kvs": []any{M{"k": "user", "v": user}, M{"k": "database", "v": "db"}}}}
 }
@@ -292,7 +301,7 @@ func (g *gen) behC05() M {
 	for i := 0; i < n; i++ {
 		steps = append(steps, send(M{"t": "Q", "q": g.script(3, 6)}))
 	}
-	return M{"cfg": baseCfg(), "steps": steps}
+	return M{"cfg": g.deadCtx(baseCfg()), "steps": steps}
 }
 
 // names: the unnamed one, short ones, two that differ only in letter case, two long ones that share their
@@ -388,7 +397,7 @@ func (g *gen) behC06() M {
 		steps = append(steps, st)
 	}
 	steps = append(steps, send(M{"t": "S"}))
-	cfg := baseCfg()
+	cfg := g.deadCtx(baseCfg())
 	g.customCache(cfg, steps, 0.25)
 	return M{"cfg": cfg, "steps": steps}
 }
@@ -632,7 +641,8 @@ func (g *gen) errText() string {
 func (g *gen) richErr() M {
 	n := g.rng.Intn(11)
 	layers := []any{}
-	codes := []string{"22012", "23505", "42601", "XX000", "XX001", "P0001", "00000", "57014", "XXUUU"}
+	// (codes need not have five characters: a class-only or mistyped code is sent as it is)
+	codes := []string{"22012", "23505", "42601", "XX000", "XX001", "P0001", "00000", "57014", "XXUUU", "23", "P001", "0"}
 	sevs := []string{"ERROR", "FATAL", "PANIC", "WARNING", "NOTICE", "DEBUG", "INFO", "LOG"}
 	for i := 0; i < n; i++ {
 		switch g.rng.Intn(7) {
@@ -786,7 +796,7 @@ func (g *gen) behC13() M {
 		// make sure the COPY is over before the next round: CopyDone, then Sync
 		steps = append(steps, send(M{"t": "c"}), send(M{"t": "c"}), send(M{"t": "S"}))
 	}
-	return M{"cfg": baseCfg(), "steps": steps}
+	return M{"cfg": g.deadCtx(baseCfg()), "steps": steps}
 }
 
 func (g *gen) trivialQ() M {
